@@ -266,6 +266,42 @@ def run(ctx):
                     meta.append(dict(inp=inp, impl='lane values', kind='lane'))
         ctx.count('tiny_noop' if tiny else 'shifted')
 
+    # ---- long signals, large shifts (monitor only): the error of the single-precision ramp must not grow with |shift| or the
+    # sample index.  Reference: double-precision FFT, ramp phase -s*fftfreq reduced mod 1 exactly, source-out-of-range samples zeroed.
+    for c in range(6 if ctx.tier == 'quick' else 40):
+        N = rng.choice([4096, 16384, 65536])
+        nch = rng.choice([1, 2])
+        cplx = rng.random() < 0.7
+        single = rng.random() < 0.5
+        data = nprng.standard_normal((N, nch)) + (1j * nprng.standard_normal((N, nch)) if cplx else 0)
+        data = data.astype((np.complex64 if single else np.complex128) if cplx else (np.float32 if single else np.float64))
+        z = X.make_signal(rng, 'BasebandSignal' if cplx else 'Signal', N, sshape=(nch,), rate=X.rand_rate(rng), data=data)
+        svals = [rng.choice([1, -1]) * (rng.randint(N // 32, N // 2) + rng.choice([0.0, 0.25, 0.5, 0.8125])) for _ in range(nch if rng.random() < 0.5 else 1)]
+        arg = np.array(svals) if len(svals) > 1 else svals[0]
+        inp = dict(cls=type(z).__name__, N=N, ss=[nch], vals=[str(v) for v in svals], dtype=str(data.dtype), case='long%d' % c)
+        ctx.seen(inp, nontrivial=True); ctx.count('long_signal'); ctx.count('dtype:' + str(data.dtype))
+        try:
+            yd = np.asarray(pb.time_shift(z, arg).data)
+        except Exception as e:
+            ctx.fail('valid_shift_raised', inp, impl=repr(e))
+            continue
+        fk = np.rint(np.fft.fftfreq(N) * N).astype(int)
+        worst = 0.0
+        for e_ in range(nch):
+            sF = Fraction(float(svals[e_ if len(svals) > 1 else 0]))
+            pn, qn = sF.numerator, sF.denominator * N
+            ph = np.array([((-pn * int(k)) % qn) / qn for k in fk], dtype=float)
+            ref = np.fft.ifft(np.fft.fft(data[:, e_].astype(np.complex128)) * np.exp(2j * np.pi * ph))
+            jj = np.arange(N)
+            ref[(jj < math.ceil(sF)) if sF >= 0 else (jj >= N + math.floor(sF))] = 0
+            if not cplx:
+                ref = ref.real
+            worst = max(worst, float(np.max(np.abs(yd[:, e_] - ref))))
+        tolv = 8e-6 * float(np.max(np.abs(data))) * 2
+        ctx.ratio(worst, tolv)
+        if worst > tolv or np.iscomplexobj(yd) != cplx:
+            ctx.fail('band_limited_delay_value', inp, impl=worst, model=tolv)
+
     header = HEADER + ('Definition sr_zero_of (r : list Z) : list (Z * Z) :=\n'
                        '  (fix go (l : list Z) : list (Z * Z) := match l with a :: b :: t => (a, b) :: go t | _ => [] end) (skipn 5 r).\n')
     res = ctx.run_cases(header, items, shard=max(40, len(items) // 32 + 1))
